@@ -182,6 +182,11 @@ class SLock(object):
         self.cid = cid
         self.owner = None       # worker index, or 'main'
         self.inert = IN_SNAPSHOT > 0
+        # allocating a lock is a yield point when a worker thread does it (stands in for threading.Lock(): code that
+        # creates its lock lazily, on first use, can be interleaved between the test and the assignment)
+        c = CTL
+        if c is not None and not self.inert and c.tids.get(threading.get_ident()) is not None:
+            c.point()
 
     def __getstate__(self):
         return {'cid': self.cid}
@@ -189,7 +194,8 @@ class SLock(object):
     def __setstate__(self, st):
         self.cid = st['cid']
         self.owner = None
-        self.inert = True       # a restored copy is never part of the run
+        self.inert = IN_SNAPSHOT > 0        # a copy made by a callback mid-event is never part of the run;
+                                            # a machine restored BEFORE the threads start is the live one
 
     def acquire(self, blocking=True, timeout=-1):
         self.__enter__()
@@ -252,7 +258,7 @@ class UCtx(object):
 
     def __setstate__(self, st):
         self.cid = st['cid']
-        self.inert = True
+        self.inert = IN_SNAPSHOT > 0
 
     def __enter__(self):
         c = CTL
@@ -279,7 +285,7 @@ class SIdent(_ORIG_IDENT):
     # yield point on a foreign read
     def __setstate__(self, st):
         self.__dict__.update(st)
-        self.__dict__['inert'] = True       # a restored copy is never part of the run
+        self.__dict__['inert'] = IN_SNAPSHOT > 0
 
     def _get(self):
         c = CTL
